@@ -9,6 +9,7 @@ import (
 	"github.com/openacid/slim/trie"
 	"github.com/openacid/testkeys"
 	"verif/internal/h"
+	"verif/internal/legacy"
 )
 
 // profile selects the dimensions a property needs from the shared enumeration.
@@ -33,12 +34,13 @@ type profile struct {
 	noOptArg                   bool
 	fillerPairs                bool
 	scaffoldFilter             func(name string) bool
+	revSweep                   bool // every oracle a second time on the same instance in reverse order (lists <= revMaxQs queries)
 }
 
 func defaultProfile() profile {
 	return profile{
 		encsMain: []string{"I32"}, encsSmall: []string{"String16", "VarEnc", "VarEncH", "VarEncH1", "Type", "TypeOff", "TypeID", "Bytes3", "LenBytes", "U64", "I8", "Int"},
-		insts:  []string{h.InstFresh, h.InstUnm, h.InstProto},
+		insts:  []string{h.InstFresh, h.InstUnm, h.InstProto, h.InstUnmUsed},
 		needQs: true, nilVals: true,
 		quickIDk: 4, quickScafK: 3, thoroughIDk: 6, thoroughScafK: 3, u85k: 3,
 		many: true, manyQuick: true,
@@ -259,6 +261,31 @@ func manyFamilies(sp *spaceCtx, thorough bool) []*h.Scaffolded {
 	}
 	add("U(S12,2)", u122)
 	add("U(S12,2)/2", thin(u122, 2, 1))
+	// every byte value 0x00..0xff as a label of one 257-bit node (plus the empty
+	// key and a second level below the first, a middle and the last label)
+	{
+		keys := []string{""}
+		for a := 0; a < 256; a++ {
+			keys = append(keys, string([]byte{byte(a)}))
+		}
+		for _, a := range []byte{0x00, 0x3f, 0x40, 0x7f, 0x80, 0xbf, 0xc0, 0xff} {
+			keys = append(keys, string([]byte{a, 0x00}), string([]byte{a, 0xff}))
+		}
+		add("all-256-first-bytes", keys)
+	}
+	// every nibble value 0..15 as a label of 17-bit nodes, at the high and at the
+	// low half of a byte: a 2-way root (so that nothing below is a 257-bit node),
+	// all 256 second bytes under one child, every third under the other
+	{
+		var keys []string
+		for a := 0; a < 256; a++ {
+			keys = append(keys, string([]byte{0x61, byte(a)}))
+			if a%3 == 0 {
+				keys = append(keys, string([]byte{0x62, byte(a)}), string([]byte{0x62, byte(a), 0x80}))
+			}
+		}
+		add("all-16-nibbles-17bit", keys)
+	}
 	add("U(S4,4)", h.Universe(sp.sigma, 4))
 	add("U(S4,4)/3", thin(h.Universe(sp.sigma, 4), 3, 0))
 	if thorough {
@@ -338,7 +365,7 @@ func buildPhases(r *h.Run, p profile) []phase {
 				u.noOptArg = false
 				u.insts = nil
 				for _, in := range p.insts {
-					if in != h.InstProto {
+					if in != h.InstProto && in != h.InstUnmUsed {
 						u.insts = append(u.insts, in)
 					}
 				}
@@ -364,6 +391,8 @@ func buildPhases(r *h.Run, p profile) []phase {
 			if p.fillerPairs && thorough {
 				u.fillerModes = []string{"distinct", "pairs"}
 			}
+			// with absent queries the second sweep doubles the dominant cost: small sets only
+			u.rev = p.revSweep && len(u.qs) <= 600 && (!p.needQs || (sc.NVar() <= 3 && len(sc.Keys) == sc.NVar()) || sc.NVar() <= 1)
 			return u
 		}
 	}
@@ -615,6 +644,118 @@ func buildPhases(r *h.Run, p profile) []phase {
 		}})
 	}
 
+	// shape sweep: the structures of the current format end on every bit position
+	{
+		lists, cov, all := shapeSweep()
+		r.Bounds["shape_sweep"] = fmt.Sprintf("%d key lists (30..420 keys) chosen so that Inners bits, node / inner / leaf counts, stored prefix counts, highest inner id, prefix array bytes take every residue modulo 64: %d of %d (kind, residue) pairs reached", len(lists), cov, all)
+		phases = append(phases, phase{"shape-sweep", func(emit func(u interface{}) bool) {
+			if p.scaffoldFilter != nil && !p.scaffoldFilter("shapesweep") {
+				return
+			}
+			for _, f := range lists {
+				for _, o := range h.Distinct8() {
+					if p.opts != nil && !containsOpt(p.opts, o) {
+						continue
+					}
+					for _, run := range []int{1, 3} {
+						u := &inputSpec{sc: f, rev: p.revSweep && !p.needQs, opts: []h.Opt4{o}, insts: []string{h.InstFresh, h.InstUnm}, encs: p.encsMain, tag: fmt.Sprintf("run%d", run)}
+						u.explicitIDs = runLengthIDs(len(f.Keys), run)
+						if p.needQs {
+							u.qs = manyQueries(f.Keys)
+						}
+						if !emit(u) {
+							return
+						}
+					}
+				}
+				if p.nilVals {
+					for _, o := range []h.Opt4{h.Distinct8()[0], h.Distinct8()[7]} {
+						if p.opts != nil && !containsOpt(p.opts, o) {
+							continue
+						}
+						u := &inputSpec{sc: f, opts: []h.Opt4{o}, insts: []string{h.InstFresh}, encs: p.encsMain, tag: "nil", explicitNil: true}
+						if p.needQs {
+							u.qs = manyQueries(f.Keys)
+						}
+						if !emit(u) {
+							return
+						}
+					}
+				}
+			}
+		}})
+	}
+
+	// length tuples: 3 or 4 sibling leaves whose stored tails take EVERY tuple of
+	// lengths 0..3 bytes (thorough 0..5 for 3 leaves), and 3 or 4 sibling inner
+	// nodes whose stored prefixes take every tuple of lengths 0..3 / 0..2: a
+	// layout decision derived from sums or from the first / last length (a
+	// "fixed size" fast path) sees every arithmetic coincidence
+	{
+		mkq := mk(sp.q2)
+		maxL3 := 3
+		if thorough {
+			maxL3 = 5
+		}
+		r.Bounds["length_tuples"] = fmt.Sprintf("leaf tails: {0..%d}^3 + {0..3}^4; inner prefixes: {0..3}^3 + {0..2}^4", maxL3)
+		phases = append(phases, phase{"length-tuples", func(emit func(u interface{}) bool) {
+			if p.scaffoldFilter != nil && !p.scaffoldFilter("lentuples") {
+				return
+			}
+			tuples := func(n, max int, fn func(t []int) bool) bool {
+				t := make([]int, n)
+				for {
+					if !fn(t) {
+						return false
+					}
+					i := n - 1
+					for ; i >= 0; i-- {
+						t[i]++
+						if t[i] <= max {
+							break
+						}
+						t[i] = 0
+					}
+					if i < 0 {
+						return true
+					}
+				}
+			}
+			unit := func(name string, keys []string) bool {
+				sc := &h.Scaffolded{Name: name, Keys: keys, IsVar: make([]bool, len(keys)), Lift: func(q string) string { return q }}
+				for i := range sc.IsVar {
+					sc.IsVar[i] = true
+				}
+				u := mkq(sc, false)
+				u.patterns = []uint64{(1 << uint(len(keys)-1)) - 1, 0x2}
+				return emit(u)
+			}
+			for _, nm := range [][2]int{{3, maxL3}, {4, 3}} {
+				if !tuples(nm[0], nm[1], func(t []int) bool {
+					var keys []string
+					for i, l := range t {
+						keys = append(keys, string([]byte{byte(0x10*(i+1) + 1)})+strings.Repeat("\x77", l))
+					}
+					return unit(fmt.Sprintf("tails%v", t), keys)
+				}) {
+					return
+				}
+			}
+			for _, nm := range [][2]int{{3, 3}, {4, 2}} {
+				if !tuples(nm[0], nm[1], func(t []int) bool {
+					var keys []string
+					for i, l := range t {
+						P := string([]byte{byte(0x10*(i+1) + 1)}) + strings.Repeat("\x55", l)
+						keys = append(keys, P+"\x01", P+"\x02\x00")
+					}
+					return unit(fmt.Sprintf("prefixes%v", t), keys)
+				}) {
+					return
+				}
+			}
+		}})
+	}
+
 	if thorough && p.u85k > 0 {
 		u3 := h.Universe(sp.sigma, 3)
 		q3 := h.QuerySet(sp.sigma, 3)
@@ -662,7 +803,7 @@ func buildPhases(r *h.Run, p profile) []phase {
 						if p.opts != nil && !containsOpt(p.opts, o) {
 							continue
 						}
-						u := &inputSpec{sc: f, opts: []h.Opt4{o}, insts: p.insts, encs: p.encsMain, tag: fmt.Sprintf("run%d", run)}
+						u := &inputSpec{sc: f, rev: p.revSweep && !p.needQs, opts: []h.Opt4{o}, insts: p.insts, encs: p.encsMain, tag: fmt.Sprintf("run%d", run)}
 						u.explicitIDs = runLengthIDs(len(f.Keys), run)
 						if p.needQs {
 							u.qs = manyQueries(f.Keys)
@@ -680,7 +821,7 @@ func buildPhases(r *h.Run, p profile) []phase {
 							continue
 						}
 						// long variable-width values on the same family
-						ul := &inputSpec{sc: f, opts: []h.Opt4{o}, insts: p.insts, encs: []string{"String16L"}, tag: "long-values"}
+						ul := &inputSpec{sc: f, rev: p.revSweep && !p.needQs, opts: []h.Opt4{o}, insts: p.insts, encs: []string{"String16L"}, tag: "long-values"}
 						ul.explicitIDs = runLengthIDs(len(f.Keys), 2)
 						if p.needQs {
 							ul.qs = manyQueries(f.Keys)
@@ -688,7 +829,7 @@ func buildPhases(r *h.Run, p profile) []phase {
 						if len(f.Keys) <= 2500 && !emit(ul) {
 							return
 						}
-						u := &inputSpec{sc: f, opts: []h.Opt4{o}, insts: p.insts, encs: []string{"VarEnc"}, tag: "holes"}
+						u := &inputSpec{sc: f, rev: p.revSweep && !p.needQs, opts: []h.Opt4{o}, insts: p.insts, encs: []string{"VarEnc"}, tag: "holes"}
 						ids := make([]int, len(f.Keys))
 						for i := range ids {
 							switch {
@@ -714,7 +855,7 @@ func buildPhases(r *h.Run, p profile) []phase {
 						if n := len(f.Keys); n >= 130 && n <= 2500 {
 							for hi, holes := range [][]int{{0}, {n / 3}, {n - 1}, {n / 2, n/2 + 1}, seqInts(0, 64)} {
 								for _, enc := range []string{"VarEnc", "VarEncH"} {
-									uh := &inputSpec{sc: f, opts: []h.Opt4{o}, insts: p.insts, encs: []string{enc}, tag: fmt.Sprintf("few-holes%d", hi)}
+									uh := &inputSpec{sc: f, rev: p.revSweep && !p.needQs, opts: []h.Opt4{o}, insts: p.insts, encs: []string{enc}, tag: fmt.Sprintf("few-holes%d", hi)}
 									ids := make([]int, n)
 									for i := range ids {
 										ids[i] = 2*i + 1
@@ -739,7 +880,7 @@ func buildPhases(r *h.Run, p profile) []phase {
 						if p.opts != nil && !containsOpt(p.opts, o) {
 							continue
 						}
-						u := &inputSpec{sc: f, opts: []h.Opt4{o}, insts: p.insts, encs: p.encsMain, tag: "nil"}
+						u := &inputSpec{sc: f, rev: p.revSweep && !p.needQs, opts: []h.Opt4{o}, insts: p.insts, encs: p.encsMain, tag: "nil"}
 						u.explicitNil = true
 						if p.needQs {
 							u.qs = manyQueries(f.Keys)
@@ -752,7 +893,19 @@ func buildPhases(r *h.Run, p profile) []phase {
 			}
 		}})
 	}
-	return append(phases, latePhases...)
+	// the sweeps and tuple families are cheap (seconds) and reach what the subset
+	// spaces do not: they run first, so that a run that is cut by its time budget
+	// on a loaded machine has still finished them
+	var first, rest []phase
+	for _, ph := range phases {
+		switch ph.name {
+		case "shift-sweep", "step-sweep", "tail-sweep", "length-tuples", "shape-sweep":
+			first = append(first, ph)
+		default:
+			rest = append(rest, ph)
+		}
+	}
+	return append(append(first, rest...), latePhases...)
 }
 
 func seqInts(from, n int) []int {
@@ -805,4 +958,94 @@ func manyQueries(keys []string) []string {
 	q = uniq(q)
 	manyQCache[ck] = q
 	return q
+}
+
+var shapeSweepCache struct {
+	lists   []*h.Scaffolded
+	covered int
+	kinds   int
+}
+
+// shapeSweep chooses, greedily from the sorted prefixes of regular base lists,
+// key lists such that the structures of the CURRENT format end on every bit
+// position of a 64-bit word: total bits of Inners, node count, inner-node
+// count, leaf count, number of stored inner prefixes and leaf prefixes, highest
+// inner-node id, bytes of the inner-prefix and leaf-prefix arrays (their
+// position bitmaps), each modulo 64, plus the pair (Inners bits modulo 64,
+// the last inner node is a short node).  Measured on the exported message of a
+// Complete-mode build; reports how many (kind, residue) pairs were reached.
+func shapeSweep() ([]*h.Scaffolded, int, int) {
+	if shapeSweepCache.lists != nil {
+		return shapeSweepCache.lists, shapeSweepCache.covered, shapeSweepCache.kinds
+	}
+	pop := func(b *trie.Bitmap) int {
+		n := 0
+		if b != nil {
+			for _, x := range b.Words {
+				for ; x != 0; x &= x - 1 {
+					n++
+				}
+			}
+		}
+		return n
+	}
+	seen := map[[2]int]bool{}
+	var out []*h.Scaffolded
+	for bi, base := range legacy.SweepBases() {
+		for n := 30; n <= len(base); n++ {
+			keys := append([]string{}, base[:n]...)
+			sort.Strings(keys)
+			keys = uniq(keys)
+			vals := make([]int32, len(keys))
+			for i := range vals {
+				vals[i] = int32(i)
+			}
+			st, err := trie.NewSlimTrie(encode.I32{}, keys, vals, trie.Opt{Complete: trie.Bool(true)})
+			if err != nil {
+				continue
+			}
+			buf, _ := st.Marshal()
+			s := h.DecodeSlim(buf)
+			inner, short, big := pop(s.NodeTypeBM), pop(s.ShortBM), int(s.BigInnerCnt)
+			bits := 257*big + 17*(inner-big-short) + int(s.ShortSize)*short
+			lastInner, lastShort := -1, 0
+			if s.NodeTypeBM != nil {
+				ith := 0
+				for wi, x := range s.NodeTypeBM.Words {
+					for b := 0; b < 64; b++ {
+						if x>>uint(b)&1 == 1 {
+							lastInner = wi*64 + b
+							lastShort = 0
+							if s.ShortBM != nil && ith>>6 < len(s.ShortBM.Words) && s.ShortBM.Words[ith>>6]>>(uint(ith)&63)&1 == 1 {
+								lastShort = 1
+							}
+							ith++
+						}
+					}
+				}
+			}
+			ms := []int{bits % 64, (inner + len(keys)) % 64, inner % 64, len(keys) % 64, -1, -1, lastInner % 64, -1, -1, lastShort*64 + bits%64}
+			if s.InnerPrefixes != nil {
+				ms[4], ms[7] = int(s.InnerPrefixes.EltCnt)%64, len(s.InnerPrefixes.Bytes)%64
+			}
+			if s.LeafPrefixes != nil {
+				ms[5], ms[8] = int(s.LeafPrefixes.EltCnt)%64, len(s.LeafPrefixes.Bytes)%64
+			}
+			fresh := false
+			for kind, v := range ms {
+				if v < 0 {
+					continue
+				}
+				if p := [2]int{kind, v}; !seen[p] {
+					seen[p] = true
+					fresh = true
+				}
+			}
+			if fresh {
+				out = append(out, &h.Scaffolded{Name: fmt.Sprintf("shape-sweep(base%d,n=%d)", bi, n), Keys: keys, IsVar: make([]bool, len(keys)), Lift: func(q string) string { return q }})
+			}
+		}
+	}
+	shapeSweepCache.lists, shapeSweepCache.covered, shapeSweepCache.kinds = out, len(seen), 9*64+128
+	return out, len(seen), 9*64 + 128
 }
